@@ -49,6 +49,8 @@ func genC01(t *rapid.T) c01Case {
 	c := c01Case{Opts: o, Kind: genKind(t), Hist: genHistory(t, o)}
 	if c.Kind == "legacy" && rapid.IntRange(0, 7).Draw(t, "secondIn") == 0 {
 		c.Via = "second-in-early"
+	} else if c.Kind == "legacy" && rapid.IntRange(0, 5).Draw(t, "inAgain") == 0 {
+		c.Via = "in-again-after-end"
 	}
 	return c
 }
